@@ -329,7 +329,89 @@ fn run_type<T: Pk>(r: &mut Rng, n_rt: usize, n_dec: usize) {
     }
 }
 
+/// poll a future that never really suspends (Vec / Cursor I/O)
+fn now<F: std::future::Future>(f: F) -> F::Output {
+    let mut f = std::pin::pin!(f);
+    let w = std::task::Waker::noop();
+    let mut cx = std::task::Context::from_waker(&w);
+    match f.as_mut().poll(&mut cx) { std::task::Poll::Ready(v) => v, std::task::Poll::Pending => panic!("pending") }
+}
+
+/// independent LEB128 of the 32-bit pattern (the protocol's VarInt), written here from the
+/// protocol text, not from the crate
+fn leb32(v: i32) -> ([u8; 5], usize) {
+    let mut u = v as u32; let mut out = [0u8; 5]; let mut n = 0;
+    loop { let b = (u & 0x7f) as u8; u >>= 7; if u != 0 { out[n] = b | 0x80; n += 1; } else { out[n] = b; n += 1; break; } }
+    (out, n)
+}
+
+/// every `stride`-th i32 plus all boundary values: the real writer against LEB128 and the
+/// real reader against the value; one summary case
+fn sweep_varints(stride: u64) {
+    fn check(v: i32) -> bool {
+        // no heap allocation here: the counting allocator's atomics would serialise the workers
+        let mut arr = [0u8; 16];
+        let mut w = Cursor::new(&mut arr[..]);
+        if now(w.write_varint(v)).is_err() { return false; }
+        let len = w.position() as usize;
+        let (l, n) = leb32(v);
+        let mut cur = Cursor::new(&arr[..len]);
+        let back = now(cur.read_varint());
+        arr[..len] == l[..n] && matches!(back, Ok(b) if b == v) && cur.position() as usize == len
+    }
+    // 16 worker threads over disjoint ranges
+    let total: i64 = 1i64 << 32;
+    let workers = 16i64;
+    let per = total / workers;
+    let results: Vec<(u64, u64, i64)> = std::thread::scope(|sc| {
+        let hs: Vec<_> = (0..workers).map(|w| sc.spawn(move || {
+            let lo = i32::MIN as i64 + w * per;
+            let hi = if w == workers - 1 { i32::MAX as i64 } else { lo + per - 1 };
+            // align the first value of the range to the stride grid starting at i32::MIN
+            let off = (lo - i32::MIN as i64) % stride as i64;
+            let mut v = if off == 0 { lo } else { lo + (stride as i64 - off) };
+            let (mut count, mut bad, mut first_bad) = (0u64, 0u64, 0i64);
+            while v <= hi { count += 1; if !check(v as i32) { if bad == 0 { first_bad = v; } bad += 1; } v += stride as i64; }
+            (count, bad, first_bad)
+        })).collect();
+        hs.into_iter().map(|h| h.join().unwrap()).collect()
+    });
+    let mut count: u64 = results.iter().map(|r| r.0).sum();
+    let mut bad: u64 = results.iter().map(|r| r.1).sum();
+    let mut first_bad: i64 = results.iter().filter(|r| r.1 > 0).map(|r| r.2).next().unwrap_or(0);
+    for k in 0..32u32 { for d in [-1i64, 0, 1] { for sgn in [1i64, -1] {
+        let x = sgn * ((1i64 << k) + d);
+        if x >= i32::MIN as i64 && x <= i32::MAX as i64 { count += 1; if !check(x as i32) { if bad == 0 { first_bad = x; } bad += 1; } } } } }
+    emit_case("VX", &format!("(VX {} {} {} {})", stride, count, bad, g_z(first_bad)));
+}
+
 fn run_varints(r: &mut Rng, n: usize) {
+    // every boundary value deterministically, then seeded ones
+    let mut fixed32: Vec<i32> = vec![i32::MIN, i32::MAX, 0];
+    let mut fixed64: Vec<i64> = vec![i64::MIN, i64::MAX, 0];
+    for k in 0..64u32 { for d in [-1i128, 0, 1] { for sgn in [1i128, -1] {
+        let x = sgn * ((1i128 << k) + d);
+        if x >= i32::MIN as i128 && x <= i32::MAX as i128 { fixed32.push(x as i32); }
+        if x >= i64::MIN as i128 && x <= i64::MAX as i128 { fixed64.push(x as i64); } } } }
+    fixed32.sort(); fixed32.dedup(); fixed64.sort(); fixed64.dedup();
+    for v in fixed32 {
+        let mut buf: Vec<u8> = Vec::new();
+        now(buf.write_varint(v)).unwrap();
+        let mut cur = Cursor::new(buf.clone());
+        let back = now(cur.read_varint());
+        let rest = buf.len() - cur.position() as usize;
+        let back = match back { Ok(b) => format!("(Some {})", g_z(b)), Err(_) => "None".into() };
+        emit_case("VI", &format!("(VI {} {} {} {})", g_z(v), g_hex(&buf), back, rest));
+    }
+    for v in fixed64 {
+        let mut buf: Vec<u8> = Vec::new();
+        now(buf.write_varlong(v)).unwrap();
+        let mut cur = Cursor::new(buf.clone());
+        let back = now(cur.read_varlong());
+        let rest = buf.len() - cur.position() as usize;
+        let back = match back { Ok(b) => format!("(Some {})", g_z(b)), Err(_) => "None".into() };
+        emit_case("VL", &format!("(VL {} {} {} {})", g_z(v), g_hex(&buf), back, rest));
+    }
     for _ in 0..n {
         let v = r.boundary(i32::MIN as i128, i32::MAX as i128) as i32;
         let (enc, back, rest) = block_on(async {
@@ -390,6 +472,7 @@ fn main() {
          csb::CookieResponsePacket, csb::PluginMessagePacket, csb::AckFinishConfigurationPacket, csb::KeepAlivePacket,
          csb::PongPacket, csb::ResourcePackResponsePacket, csb::KnownPacksPacket);
     run_varints(&mut r, 60 * scale);
+    sweep_varints(if scale >= 8 { 1 } else { 4099 });
     // fixed corpus: inner length prefixes -1, i32::MIN, 2^31-1 (panicked / asked for 2 GiB before the repair)
     for lenp in [&[0xffu8, 0xff, 0xff, 0xff, 0x0f][..], &[0x80, 0x80, 0x80, 0x80, 0x08][..], &[0xff, 0xff, 0xff, 0xff, 0x07][..]] {
         let mut hs = vec![0x81u8, 0x06];
